@@ -3,6 +3,7 @@ package main
 import (
 	"encoding/json"
 	"fmt"
+	"go/ast"
 	"go/token"
 	"os"
 	"path/filepath"
@@ -124,6 +125,24 @@ func (c *Ctx) check(cond bool, key string, pos token.Pos, okHow, badHow string) 
 	} else {
 		c.bad(key, pos, "%s", badHow)
 	}
+}
+
+// checkPath is check with a witness path (block nodes) attached to the violation.
+func (c *Ctx) checkPath(cond bool, key string, pos token.Pos, witness []ast.Node, okHow, badHow string) {
+	if cond {
+		c.ok(key, pos, true, "%s", okHow)
+		return
+	}
+	var path []string
+	for _, n := range witness {
+		if n != nil {
+			path = append(path, c.posStr(n.Pos()))
+		}
+	}
+	if len(path) > 12 {
+		path = append(path[:6], path[len(path)-6:]...)
+	}
+	c.badPath(key, pos, path, "%s", badHow)
 }
 
 func (c *Ctx) stat(name string, n int) { c.stats[name] += n }
